@@ -33,7 +33,7 @@ U(d) == IF d <= 1 THEN L0 ELSE Grow(U(d - 1), L0, Width, Kinds, DCs)
 Inner == U(MaxDepth - 1)
 
 VARIABLE v
-Init == v \in Inner
+Init == v \in Inner \cup (IF MaxDepth = 2 THEN Rootless(L0, TopKinds) ELSE {})
 Next == Depth(v) < MaxDepth /\ v' \in Expand(v, Inner, Width, RootSeqWidth, TopKinds, TopDCs)
 Spec == Init /\ [][Next]_v
 
@@ -73,14 +73,21 @@ AsBuiltDevRaises == \A f \in InjFns : Devs(v) # {} => MapNestedAsBuilt(f, v) = E
 
 \* all of the above in one pass (MapNested evaluated once per f): what the large runs check
 AllLaws ==
-  /\ VisitLaw /\ WellFormed(v) /\ Depth(v) <= MaxDepth
-  /\ \A f \in InjFns : LET m == MapNested(f, v)
-                       IN ShapeLawF(m) /\ LeafLawF(f, m) /\ RelabelLawF(f, m) /\ WFLawF(m)
-  /\ \A f \in AnyFns \ InjFns : WFLawF(MapNested(f, v))
-  /\ LET f == EmitF
-         devs == Devs(v)
-         ab == MapNestedAsBuilt(f, v)
-     IN (devs # {} => ab = ErrV) /\ (devs = {} => Shape(ab) = Shape(v))
+  LET sv == Shape(v)
+      lv == Leaves(v)
+      nl == BagCardinality(lv)
+  IN /\ ToBag(MapVisits(v)) = lv /\ ToBag(IterLeaves(v)) = lv
+     /\ WellFormed(v) /\ Depth(v) <= MaxDepth
+     /\ \A f \in InjFns : LET m == MapNested(f, v)
+                          IN /\ Shape(m) = sv
+                             /\ Leaves(m) = BagMap(f, lv)
+                             /\ m = Relabel(f, v)
+                             /\ WellFormed(m)
+     /\ \A f \in AnyFns \ InjFns : LET m == MapNested(f, v)
+                                    IN WellFormed(m) /\ BagCardinality(Leaves(m)) <= nl
+     /\ LET devs == Devs(v)
+            ab == MapNestedAsBuilt(EmitF, v)
+        IN (devs # {} => ab = ErrV) /\ (devs = {} => Shape(ab) = sv)
 
 \* model-level controls (each MUST be violated)
 AsBuiltShapeStrict == \A f \in InjFns : Shape(MapNestedAsBuilt(f, v)) = Shape(v)
